@@ -309,7 +309,7 @@ def git_ignored(root, submods=()):
 
 
 def generate(tier, seed):
-    n_plain, n_git = (80, 30) if tier == "quick" else (4000, 1000)
+    n_plain, n_git = (80, 30) if tier == "quick" else (12000, 3000)
     cases = [{"k": k, "git": False} for k in range(n_plain)] + [{"k": n_plain + k, "git": True} for k in range(n_git)]
     return cases
 
